@@ -16,8 +16,8 @@
     (see Model/Store.v); the harness runs cache sizes 1, 2, 8, 512 against it. *)
 From Coq Require Import NArith List Bool.
 From stdpp Require Import gmap.
-From GH Require Import Base.Prelude Model.Store Model.StoreSpec Oracle.StoreCase.
-From GH Require Import Proofs.StoreP Proofs.StoreMainP Proofs.StoreC04P.
+From GH Require Import Base.Prelude Model.Store Model.StoreSpec Model.StoreCache Oracle.StoreCase.
+From GH Require Import Proofs.StoreP Proofs.StoreMainP Proofs.StoreC04P Proofs.StoreCacheP.
 Import ListNotations.
 Open Scope N_scope.
 
@@ -108,6 +108,38 @@ Theorem C04_appended_readable : forall c U, chain_hyps c U -> forall b ops ns n,
   get_by_height s n = Found (c n) /\ get s (h_id (c n)) = Found (c n) /\ has s (h_id (c n)) = true.
 Proof. exact @appended_readable. Qed.
 
+(** The two 2Q caches (Store.cache hash -> header, heightIndex.cache height -> hash) cannot be
+    observed: for the cache-augmented model of Model/StoreCache.v (Get / HashByHeight fill the
+    caches from datastore reads, Has asks the cache first, deleteSingle removes, deinit purges, a
+    new Store starts empty) and for EVERY pair of eviction oracles [evh], [evi] (applied after
+    every cache Add and after every operation: every cache size and replacement policy), the
+    cached Store walks through exactly the states of the cache-free model, every read returns
+    the cache-free result, and the caches stay sub-maps of the datastore (no stale entry
+    survives a delete).  Hence all theorems of C04 / C06 / C08 / C14 hold for the cached Store. *)
+Theorem C04_cache_independent : forall c U, chain_hyps c U -> forall (evh evi : nat -> N -> bool) b ops,
+  Forall (op_ok U) ops ->
+  let X := crun evh evi (cst0 b) (map (to_op c) ops) in
+  let s := run c (st0 b) ops in
+  c_st X = s /\
+  (forall n, snd (cget_by_height evh evi X n) = get_by_height s n) /\
+  (forall id, snd (cget evh X id) = get s id) /\
+  (forall id, chas X id = has s id) /\
+  (forall from to, snd (cget_range evh evi X from to) = get_range s from to) /\
+  (forall id h, c_hc X !! id = Some h -> d_hdr s !! id = Some h) /\
+  (forall n id, c_ic X !! n = Some id -> d_idx s !! n = Some id).
+Proof. exact @cache_independent. Qed.
+
+(** the caches do fill up (keep-everything oracle); a DeleteRange removes exactly its entries *)
+Example C04_caches_fill :
+  let c := simple_chain in
+  let keep := fun (_ : nat) (_ : N) => true in
+  let X := crun keep keep (cst0 1) (map (to_op c) [IAppend [1; 2; 3; 4]]) in
+  let X1 := fst (cget_by_height keep keep (fst (cget_by_height keep keep X 2)) 3) in
+  (size (c_hc X), size (c_ic X), size (c_hc X1), size (c_ic X1)) = (0%nat, 0%nat, 2%nat, 2%nat) /\
+  let X2 := fst (fst (cstep keep keep X1 (to_op c (IDelete 1 3 0 [])))) in
+  (size (c_hc X2), size (c_ic X2), c_ic X2 !! 3) = (1%nat, 1%nat, Some (h_id (c 3))).
+Proof. vm_compute. split; reflexivity. Qed.
+
 (** non-vacuity: an infinite chain satisfying the hypotheses, and a history with a gap that is
     filled later, a head-side delete, a restart *)
 Definition c04_chain : N -> hdr := simple_chain.   (* Hdr false 1 n 0 (n + 1) n true *)
@@ -133,3 +165,4 @@ Print Assumptions C04_height_is_head.
 Print Assumptions C04_head_is_top_of_run.
 Print Assumptions C04_append_head_monotone.
 Print Assumptions C04_appended_readable.
+Print Assumptions C04_cache_independent.
